@@ -387,10 +387,13 @@ theorem Bumped.frameG {m m' : Mem α} (h : Bumped m m') (c : Nat) (r : Region) :
    fun hf id hid => by rw [h.buf] at hid; rw [h.nid]; exact Nat.lt_succ_of_lt (hf id hid),
    fun r' _ _ => by rw [h.buf]⟩
 
+theorem Bumped.frameL {m m' : Mem α} (h : Bumped m m') (cfg : Cfg) (c : Nat) (r : Region) : FrameL cfg c r m m' :=
+  ⟨h.frameG c r, (NoLeak.refl cfg c m).step (fun id hid => by rw [h.buf] at hid; exact hid) (OwnsBlk.congr (by rw [h.ws]))⟩
+
 /-- `grow` threw: the container is exactly as before -/
 theorem GrowPost.ofBumped {cfg : Cfg} {Ok : VB → Prop} {c : Nat} {m m' : Mem α} {xs : List α} {w : VB} {needed : Nat} (e : Exc)
     (hv : VRepW cfg Ok c m xs w) (h : Bumped m m') : GrowPost cfg Ok c m xs w needed (.error (.exc e)) m' :=
-  ⟨Or.inr ⟨e, rfl, h.vrep hv, h.buf⟩, h.frameG c _⟩
+  ⟨Or.inr ⟨e, rfl, h.vrep hv, h.buf⟩, h.frameL cfg c _⟩
 
 theorem regionOf_blk (cfg : Cfg) (c : Nat) (w : VB) (id : Nat) (h : cfg.ops.begin w = .blk id) : regionOf cfg c w = .blk id := by
   unfold regionOf; rw [h]; rfl
@@ -402,10 +405,11 @@ theorem GrowPost.finish {cfg : Cfg} {Ok : VB → Prop} {c : Nat} {m m2 : Mem α}
     (hbuf : m2.buf = View.set V (.blk m.nextId) (lives xs ++ raws (r - xs.length)))
     (hV : ∀ r', r' ≠ regionOf cfg c w → V r' = m.buf r')
     (hVsome : ∀ id, (V (.blk id)).isSome → (m.buf (.blk id)).isSome)
+    (hVold : ∀ id, regionOf cfg c w = .blk id → 0 < cfg.ops.capacity w → V (.blk id) = none)
     (hcnt : m2.cnt m.nextId = some r)
     (hcat : m2.cat = m.cat) (hws2 : m2.ws = m.ws) (hhr : m2.hasRealloc = m.hasRealloc) (hnid : m2.nextId = m.nextId + 1)
     (hok : Ok w') (hcap : cfg.ops.capacity w' = r) (hsz : cfg.ops.size w' = xs.length) (hbeg : cfg.ops.begin w' = .blk m.nextId)
-    (hle : xs.length ≤ r) (hneed : needed ≤ r)
+    (hle : xs.length ≤ r) (hneed : needed ≤ r) (hpos : 0 < r)
     (hinl : cfg.flavour = .small → m2.buf (.inl c) = some (raws cfg.n)) :
     GrowPost cfg Ok c m xs w needed (.ok ()) ({ m2 with ws := m2.ws.set c w' } : Mem α) := by
   have hc : c < m.ws.length := Cross.getElem?_lt hws
@@ -418,7 +422,7 @@ theorem GrowPost.finish {cfg : Cfg} {Ok : VB → Prop} {c : Nat} {m m2 : Mem α}
     rw [hreg] at hid; injection hid with hid; subst hid
     rw [withWs_cnt, hcap]; exact hcnt
   · intro _ hfl; rw [withWs_buf]; exact hinl hfl
-  · refine ⟨hcat, hhr, by simp [hws2], fun c' hc' => by simp [hws2, List.getElem?_set_ne (Ne.symm hc')], by rw [hnid]; omega, ?_, ?_⟩
+  · refine ⟨⟨hcat, hhr, by simp [hws2], fun c' hc' => by simp [hws2, List.getElem?_set_ne (Ne.symm hc')], by rw [hnid]; omega, ?_, ?_⟩, ?_⟩
     · intro hf id hid
       rw [withWs_buf, hbuf] at hid
       show id < m2.nextId
@@ -431,6 +435,23 @@ theorem GrowPost.finish {cfg : Cfg} {Ok : VB → Prop} {c : Nat} {m m2 : Mem α}
       rw [withWs_buf, hbuf, View.set_other _ _ _ _ ?_]
       · exact hV r' hne
       · intro e; have := hold _ e; omega
+    · -- leak freedom: the fresh block is the container's, every other existing block existed before and is not the
+      -- container's old block (which `V` no longer contains)
+      intro id hid
+      rw [withWs_buf, hbuf] at hid
+      have hown' : ∀ j, OwnsBlk cfg c ({ m2 with ws := m2.ws.set c w' } : Mem α) j
+          ↔ (regionOf cfg c w' = .blk j ∧ 0 < cfg.ops.capacity w') := OwnsBlk.iff (by simp [hws2, hc])
+      by_cases h : id = m.nextId
+      · subst h
+        exact Or.inr (Or.inr ⟨Nat.le_refl _, (hown' _).mpr ⟨hreg, by rw [hcap]; exact hpos⟩⟩)
+      · rw [View.set_other _ _ _ _ (by intro e; injection e with e; exact h e)] at hid
+        refine Or.inl ⟨hVsome id hid, ?_, ?_⟩
+        · intro ho
+          rw [OwnsBlk.iff hws] at ho
+          rw [hVold id ho.1 ho.2] at hid; cases hid
+        · intro ho
+          rw [hown', hreg] at ho
+          injection ho.1 with e; exact h e.symm
 
 /-- representation invariant of the words of an `amc::vector`: a heap block (never block 0) of non-zero capacity, or no
     storage at all -/
@@ -542,15 +563,18 @@ theorem std_grow_post (cfg : Cfg) (hfl : cfg.flavour = .std) (L : StdLaws cfg.op
         rcases hq with ⟨_, hmv⟩ | ⟨he, _⟩
         · refine Post.mono (setW_post m2 c _) ?_
           rintro res m3 ⟨hr, rfl⟩; subst hr
-          refine GrowPost.finish (View.unset m0.buf (.blk id)) hv.ws (by rw [hmv.buf, hbm.buf]) ?_ ?_ hmv.cnt
+          refine GrowPost.finish (View.unset m0.buf (.blk id)) hv.ws (by rw [hmv.buf, hbm.buf]) ?_ ?_ ?_ hmv.cnt
             (hmv.keep.cat.trans hbm.cat) (hmv.keep.ws.trans hbm.ws) (hmv.keep.hr.trans hbm.hr) (hmv.keep.nid.trans hbm.nid)
             ⟨by show xs.length ≤ r; omega, hrk, Or.inl ⟨_, rfl, hP, by show 0 < r; omega⟩⟩
-            (by rw [L.cap_eq]) (by rw [L.size_eq]) (by rw [L.begin_eq]) (by omega) hnr (fun h => by rw [hfl] at h; cases h)
+            (by rw [L.cap_eq]) (by rw [L.size_eq]) (by rw [L.begin_eq]) (by omega) hnr (by omega) (fun h => by rw [hfl] at h; cases h)
           · intro r' hr'; rw [hreg] at hr'; exact View.unset_other _ _ _ hr'
           · intro j hj
             by_cases h : j = id
             · subst h; rw [View.unset_same] at hj; cases hj
             · rwa [View.unset_other _ _ _ (by intro e; injection e with e; exact h e)] at hj
+          · intro j hj _
+            rw [hreg] at hj; injection hj with hj; subst hj
+            exact View.unset_same _ _
         · cases he
       · rintro e m2 hq
         rcases hq with ⟨he, _⟩ | ⟨he, hs⟩
@@ -566,10 +590,11 @@ theorem std_grow_post (cfg : Cfg) (hfl : cfg.flavour = .std) (L : StdLaws cfg.op
         rcases hq with ⟨_, hal⟩ | ⟨he, _⟩
         · refine Post.mono (setW_post m2 c _) ?_
           rintro res m3 ⟨hr, rfl⟩; subst hr
-          refine GrowPost.finish m0.buf hv.ws (by rw [hal.buf, hbm.buf]; simp [lives]) (fun _ _ => rfl) (fun _ h => h) hal.cnt
+          refine GrowPost.finish m0.buf hv.ws (by rw [hal.buf, hbm.buf]; simp [lives]) (fun _ _ => rfl) (fun _ h => h)
+            (fun _ _ hp => by rw [L.cap_eq] at hp; omega) hal.cnt
             (hal.keep.cat.trans hbm.cat) (hal.keep.ws.trans hbm.ws) (hal.keep.hr.trans hbm.hr) (hal.keep.nid.trans hbm.nid)
             ⟨by show 0 ≤ r; omega, hrk, Or.inl ⟨_, rfl, hP, by show 0 < r; omega⟩⟩
-            (by rw [L.cap_eq]) (by rw [L.size_eq]) (by rw [L.begin_eq]) (by simp) hnr (fun h => by rw [hfl] at h; cases h)
+            (by rw [L.cap_eq]) (by rw [L.size_eq]) (by rw [L.begin_eq]) (by simp) hnr (by omega) (fun h => by rw [hfl] at h; cases h)
         · cases he
       · rintro e m2 hq
         rcases hq with ⟨he, _⟩ | ⟨he, hs⟩
@@ -691,16 +716,17 @@ theorem grow_commit {cfg : Cfg} {Ok : VB → Prop} {c : Nat} {m0 m1 : Mem α} {x
         ∨ (res = .error (.exc .badAlloc) ∧ Same m1 m3)))
     (hV : ∀ r', r' ≠ regionOf cfg c w → V r' = m0.buf r')
     (hVsome : ∀ id, (V (.blk id)).isSome → (m0.buf (.blk id)).isSome)
+    (hVold : ∀ id, regionOf cfg c w = .blk id → 0 < cfg.ops.capacity w → V (.blk id) = none)
     (hok : Ok w') (hcap : cfg.ops.capacity w' = r) (hsz : cfg.ops.size w' = xs.length) (hbeg : cfg.ops.begin w' = .blk m0.nextId)
-    (hle : xs.length ≤ r) (hneed : needed ≤ r) :
+    (hle : xs.length ≤ r) (hneed : needed ≤ r) (hpos : 0 < r) :
     Post (do effs; setW c w') m1 (GrowPost cfg Ok c m0 xs w needed) := by
   refine Post.bind heff ?_ ?_
   · rintro _ m3 hq
     rcases hq with ⟨_, hb3, hc3, hk3, hi3⟩ | ⟨he, _⟩
     · refine Post.mono (setW_post m3 c _) ?_
       rintro res m4 ⟨hr, rfl⟩; subst hr
-      exact GrowPost.finish V hv.ws hb3 hV hVsome hc3 (hk3.cat.trans hbm.cat) (hk3.ws.trans hbm.ws) (hk3.hr.trans hbm.hr)
-        (hk3.nid.trans hbm.nid) hok hcap hsz hbeg hle hneed hi3
+      exact GrowPost.finish V hv.ws hb3 hV hVsome hVold hc3 (hk3.cat.trans hbm.cat) (hk3.ws.trans hbm.ws) (hk3.hr.trans hbm.hr)
+        (hk3.nid.trans hbm.nid) hok hcap hsz hbeg hle hneed hpos hi3
     · cases he
   · rintro e m3 hq
     rcases hq with ⟨he, _⟩ | ⟨he, hs⟩
@@ -746,7 +772,7 @@ theorem small_grow_post (cfg : Cfg) (hfl : cfg.flavour = .small) (L : SmallLaws 
         · rw [hreg, hN] at hb; exact hb
       rw [hN] at hle
       have hner : Region.inl c ≠ Region.blk m0.nextId := by intro h; cases h
-      refine grow_commit (View.set m0.buf (.inl c) (raws cfg.n)) _ hv hbm ?_ ?_ ?_ hok' hcap' hsz' hbeg' (by omega) hnr
+      refine grow_commit (View.set m0.buf (.inl c) (raws cfg.n)) _ hv hbm ?_ ?_ ?_ ?_ hok' hcap' hsz' hbeg' (by omega) hnr (by omega)
       · refine Post.bind (allocBlock_post m1 r m0.nextId) ?_ ?_
         · rintro _ m2 hq
           rcases hq with ⟨_, ha⟩ | ⟨he, _⟩
@@ -779,6 +805,7 @@ theorem small_grow_post (cfg : Cfg) (hfl : cfg.flavour = .small) (L : SmallLaws 
           · exact Or.inr ⟨he, hs2⟩
       · intro r' hr'; rw [hreg] at hr'; exact View.set_other _ _ _ _ hr'
       · intro j hj; rwa [View.set_other _ _ _ _ (by intro e; cases e)] at hj
+      · intro j hj _; rw [hreg] at hj; cases hj
     | false =>
       simp only [growEffs, Bool.false_eq_true, ↓reduceIte, interpAll, interp_realloc, Nat.add_zero, hsz]
       -- heap state: reallocate; the inline storage is already empty
@@ -795,7 +822,7 @@ theorem small_grow_post (cfg : Cfg) (hfl : cfg.flavour = .small) (L : SmallLaws 
           have := hf id (by rw [hb0]; rfl)
           omega
         rw [hd]
-        refine grow_commit (View.unset m0.buf (.blk id)) _ hv hbm ?_ ?_ ?_ hok' hcap' hsz' hbeg' (by omega) hnr
+        refine grow_commit (View.unset m0.buf (.blk id)) _ hv hbm ?_ ?_ ?_ ?_ hok' hcap' hsz' hbeg' (by omega) hnr (by omega)
         · refine Post.bind (reallocBlk_post m1 id m0.nextId (cfg.ops.capacity w0) r xs (by rw [hbm.buf]; exact hb0)
             (by rw [hbm.cnt]; exact hc0) hle (by omega) hne) ?_ ?_
           · rintro _ m2 hq
@@ -816,12 +843,16 @@ theorem small_grow_post (cfg : Cfg) (hfl : cfg.flavour = .small) (L : SmallLaws 
           by_cases h : j = id
           · subst h; rw [View.unset_same] at hj; cases hj
           · rwa [View.unset_other _ _ _ (by intro e; injection e with e; exact h e)] at hj
+        · intro j hj _
+          rw [hreg] at hj; injection hj with hj; subst hj
+          exact View.unset_same _ _
       · have hx : xs = [] := List.eq_nil_of_length_eq_zero (by omega)
         subst hx
         have hreg : regionOf cfg c w0 = .blk 0 := by unfold regionOf; rw [hbeg0, hd]; rfl
         have hinl0 : m0.buf (.inl c) = some (raws cfg.n) := hv.store.inl (by rw [hreg]; intro h; cases h) hfl
         rw [hd, hc0]
-        refine grow_commit m0.buf _ hv hbm ?_ (fun _ _ => rfl) (fun _ h => h) hok' hcap' hsz' hbeg' (by simp) hnr
+        refine grow_commit m0.buf _ hv hbm ?_ (fun _ _ => rfl) (fun _ h => h) (fun _ _ hp => by omega) hok' hcap' hsz' hbeg' (by simp) hnr
+          (by omega)
         refine Post.bind (reallocNull_post m1 r m0.nextId) ?_ ?_
         · rintro _ m2 hq
           rcases hq with ⟨_, hal⟩ | ⟨he, _⟩
